@@ -11,6 +11,7 @@ import (
 	"errors"
 	"fmt"
 	"runtime"
+	"strings"
 	"sync"
 	"sync/atomic"
 	"testing"
@@ -470,7 +471,7 @@ func TestC20_Fixed(t *testing.T) {
 // fail-stop on a library goroutine, hence a child process) ----
 
 type c20Load struct {
-	Behave string `json:"behave"` // prompt | missing | silent | status
+	Behave string `json:"behave"` // prompt | missing | silent | status | no_xattr | other_xattr | empty_xattr
 	Status int    `json:"status"`
 }
 
@@ -479,7 +480,23 @@ func c20LoadChild(raw json.RawMessage) any {
 	_ = json.Unmarshal(raw, &sc)
 	e := newLBFresh(1, 16, 0)
 	e.cfg.Dcp.Group.Name = "c20"
-	if sc.Behave != "missing" {
+	switch sc.Behave {
+	case "no_xattr", "other_xattr", "empty_xattr":
+		// the document exists but carries no (usable) checkpoint attribute: the node answers the lookup with a
+		// multi-path failure whose single path reports PATH_ENOENT (a first save that died between creating the
+		// document and writing the attribute leaves exactly this behind)
+		x := map[string][]byte{}
+		if sc.Behave == "other_xattr" {
+			x["other"] = []byte(`{"a":1}`)
+		}
+		if sc.Behave == "empty_xattr" {
+			x["cbgo"] = []byte(`{}`)
+		}
+		e.c.Lock()
+		e.c.Docs["_connector:cbgo:c20:checkpoint:5"] = &simnode.Doc{Body: []byte(`{}`), Cas: 9, Xattr: x}
+		e.c.Unlock()
+	}
+	if sc.Behave != "missing" && !strings.HasSuffix(sc.Behave, "_xattr") {
 		e.c.Lock()
 		e.c.Docs["_connector:cbgo:c20:checkpoint:5"] = &simnode.Doc{Body: []byte(`{}`), Cas: 9,
 			Xattr: map[string][]byte{"cbgo": []byte(`{"checkpoint":{"vbuuid":7,"seqno":3,"snapshot":{"startSeqno":1,"endSeqno":4}},"bucketUuid":"u"}`)}}
@@ -545,6 +562,15 @@ func c20ExecLoad(sc c20Load) string {
 		if died || !res.Returned || res.Exist || res.Seq != 0 {
 			return fmt.Sprintf("checkpoint read of a missing document must report 'no checkpoint': died=%v %+v %s", died, res, firstLine(r.Stderr))
 		}
+	case "no_xattr", "other_xattr", "empty_xattr":
+		// the node answered promptly: the read must end (value, "no checkpoint", an error or a fail-stop), never hang,
+		// and must not invent a position
+		if !died && !res.Returned {
+			return fmt.Sprintf("the node answered the checkpoint read promptly (document without a usable attribute: %s), yet the read did not return within 9 s: the operation hangs", sc.Behave)
+		}
+		if !died && res.Seq != 0 {
+			return fmt.Sprintf("the checkpoint read reported position %d for a document without a checkpoint attribute (%s)", res.Seq, sc.Behave)
+		}
 	default:
 		// silence / an error status: the read must end by its (5 s) deadline with an error - which the loader
 		// turns into a fail-stop -, never hang and never report a checkpoint
@@ -564,7 +590,8 @@ func c20ExecLoad(sc c20Load) string {
 }
 
 func TestC20_CheckpointRead(t *testing.T) {
-	scs := []c20Load{{Behave: "prompt"}, {Behave: "missing"}, {Behave: "silent"}, {Behave: "status", Status: int(memd.StatusAccessError)}}
+	scs := []c20Load{{Behave: "prompt"}, {Behave: "missing"}, {Behave: "silent"}, {Behave: "status", Status: int(memd.StatusAccessError)},
+		{Behave: "no_xattr"}, {Behave: "other_xattr"}, {Behave: "empty_xattr"}}
 	if thorough() {
 		scs = append(scs, c20Load{Behave: "status", Status: int(memd.StatusInternalError)}, c20Load{Behave: "silent"})
 	}
@@ -579,7 +606,7 @@ func TestC20_CheckpointRead(t *testing.T) {
 		if d != "" {
 			violation(t, "C20", "c20load", scs[i], "%s", d)
 		}
-		record("C20", scs[i], scs[i].Behave == "silent" || scs[i].Behave == "status", "checkpoint_read_cases")
+		record("C20", scs[i], scs[i].Behave != "prompt" && scs[i].Behave != "missing", "checkpoint_read_cases")
 	}
 }
 
